@@ -18,11 +18,25 @@ def run_c16(ctx):
                 "--sample", 12 if thorough else 1, "--out", "cli.json", timeout=7200)
     ctx.load_result("cli.json")
     os.unlink(info["out"])
+    # input channels and unreadable input: CliInput.tla generates, the binary runs, TLC judges the observations
+    io = ctx.tlc("CliInput", "cli_io", workers=16, timeout=3000)
+    ctx.harness("cli-io-replay", "--bin", ctx.cli_bin, "--dir", clidir, "--cases", io["out"], "--seed", ctx.seed,
+                "--sample", 1 if thorough else 5, "--trace", ctx.path("cliio.ndjson"), "--side", ctx.path("cliio.side"),
+                "--out", "cliio.json", timeout=7200)
+    rio = ctx.load_result("cliio.json")
+    os.unlink(io["out"])
+    vouts = ctx.tlc_trace("TraceCli", "trace_cli", ctx.path("cliio.ndjson"), chunks=12)
+    ctx.harness("cli-io-trace-check", "--side", ctx.path("cliio.side"), "--verdicts", ",".join(vouts), "--out", "cliiotrace.json")
+    tr = ctx.load_result("cliiotrace.json")
+    if tr["cases"] != rio["cases"] - rio["n_violations"]:
+        raise Inconclusive("TLC judged %d of %d recorded runs of the command" % (tr["cases"], rio["cases"]))
     return {"exhaustive": not thorough, "assumptions": [
         "TLC 1.8.0; Cli.tla abstracts statements to five kinds and text to fragments / semicolons / line breaks",
         "whether an empty statement between semicolons and an unterminated final let count as failures is left open "
         "(both exit statuses are accepted when nothing else failed)",
         "expected standard output is computed with the library's own Compile on prelude + statement, as the property defines it",
+        "what is printed for text read before a read error is left open (any number of the completely read statements, in "
+        "order, possibly one more block); a directory argument stands for a file that can be opened but not read",
     ], "coverage": {
         "rule": "design level: every script of up to MaxStmts statements over {let ok, let bad, query ok, query bad, empty} in "
                 "every layout (statement on one or two lines; next statement on the same line, the next line, after a blank "
@@ -32,7 +46,14 @@ def run_c16(ctx):
                 "use, semicolons inside strings and comments, several kinds of invalid statements) and fed to the cmd/pql binary "
                 "built from the working tree via stdin, one file, four files cut at arbitrary bytes, or with -o; stdout, exit "
                 "status and stderr line count are compared; plus an over-long line and an unreadable file. Thorough: MaxStmts 4 "
-                "at design level, every 12th terminal state (by seed) run through the binary. Non-trivial = more than one statement.",
+                "at design level, every 12th terminal state (by seed) run through the binary. Input channels (CliInput.tla, scripts "
+                "of up to 2 statements over {let ok, query ok, query bad}): stdin / one file / three files cut at every pair of "
+                "symbol boundaries (second cut: same, two further, end) x fault {none, a directory before piece 1..4, a missing "
+                "path there, piece 1..3 as '-' on stdin} x output {stdout, -o file}; TLC checks that the model of makeInput / "
+                "reader / line scanner / loop is accepted by the judge and that the judge rejects exit 0 on unreadable input, "
+                "extra and missing blocks; every 5th case (quick) or every case (thorough) is run through the binary with real "
+                "files and directories, each block of stdout is identified as (statement, lets in scope), and the observations "
+                "are judged by TLC (TraceCli.tla). Non-trivial = more than one statement.",
     }}
 
 
